@@ -5,7 +5,7 @@
 From Coq Require Import Reals List Lra Lia.
 From AhrsLib Require Import Base Rot.
 From AhrsGen Require Import C08gen_R.
-From AhrsProps Require Import C08_lib C08_closed C08_series C08_series5 C08_series6 C08_bounds C08_deadreck.
+From AhrsProps Require Import C08_lib C08_closed C08_series C08_series5 C08_series6 C08_bounds C08_deadreck C08_integration.
 Import ListNotations.
 Open Scope R_scope.
 
@@ -72,7 +72,7 @@ Proof.
     assert (0 < wnorm wx wy wz) by nra. nra. }
   split; [rewrite <- U, <- series_vec_is_partial_sum by exact Hk; reflexivity|]. split; [exact C|].
   destruct (series_error h (Rlt_le _ _ Hp) H1 k Hk) as [E1 E2]. split; [exact E1|]. split; [exact E2|].
-  exact (bound_decreasing h (Rlt_le _ _ Hp) H1 k Hp).
+  exact (bound_decreasing h H1 k Hp).
 Qed.
 Print Assumptions C08_series_error.
 
@@ -92,7 +92,7 @@ Proof.
   intros dt wx wy wz w x y z H NZ D. unfold D.
   split; [apply ekf_f_val|]. split; [apply roleq_val|]. split; [apply madgwick_val; auto|]. split; [apply mahony_val; auto|].
   split.
-  - rewrite aqua_val; [|nra|exact NZ]. unfold qconj at 3. cbv [e List.nth]. rewrite !Ropp_involutive. reflexivity.
+  - rewrite aqua_val; [|nra|exact NZ]. replace (qconj [w; -x; -y; -z]) with [w;x;y;z] by (unfold_rot; list_eq; ring). reflexivity.
   - apply series1_is_dr; auto.
 Qed.
 Print Assumptions C08_dead_reckoning_same_step.
@@ -101,23 +101,36 @@ Print Assumptions C08_dead_reckoning_same_step.
    closed-form (constant-rate) step it returns the exact axis with the magnitude scaled by sin(h)/h, h = |w| dt/2 — so
    re-integrating reproduces the sequence up to h - sin h <= h^3/6 per step (angvel_inverse_partial: the O(h^3) defect is
    stated, the N-step accumulation is explored by the search oracle only) *)
-Theorem C08_angular_velocities_partial : forall a b c d wx wy wz, a*a + b*b + c*c + d*d = 1 ->
-  (forall w x y z, w*w + x*x + y*y + z*z = 1 ->
+Theorem C08_angular_velocities_partial : forall (a b c d wx wy wz : R), (a*a + b*b + c*c + d*d = 1) ->
+  (forall w x y z : R, w*w + x*x + y*y + z*z = 1 ->
      C08_angvel_R a b c d w x y z =
      Val [200 * e (qmul (qconj [a;b;c;d]) [w;x;y;z]) 1; 200 * e (qmul (qconj [a;b;c;d]) [w;x;y;z]) 2;
-          200 * e (qmul (qconj [a;b;c;d]) [w;x;y;z]) 3]) /  (let q := qmul [a;b;c;d] (rotq wx wy wz (1/100)) in
+          200 * e (qmul (qconj [a;b;c;d]) [w;x;y;z]) 3]) /\
+  (let q := qmul [a;b;c;d] (rotq wx wy wz (1/100)) in
    let n := wnorm wx wy wz in
    C08_angvel_R a b c d (e q 0) (e q 1) (e q 2) (e q 3) =
-   Val [200 * (sin (n * (1/100) / 2) * wx / n); 200 * (sin (n * (1/100) / 2) * wy / n); 200 * (sin (n * (1/100) / 2) * wz / n)]) /  (forall h, 0 <= h <= 1 -> 0 <= h - sin h <= h^3/6).
+   Val [200 * (sin (n * (1/100) / 2) * wx / n); 200 * (sin (n * (1/100) / 2) * wy / n); 200 * (sin (n * (1/100) / 2) * wz / n)]) /\
+  (forall h, 0 <= h <= 1 -> 0 <= h - sin h <= h^3/6).
 Proof.
   intros a b c d wx wy wz Hp. split; [intros; apply angvel_val; auto|]. split; [exact (angvel_of_closed_step a b c d wx wy wz Hp)|].
   intros h [H0 H1]. destruct (sin_brackets h H0 H1) as (S1 & S2 & _). pose proof (pow_mono h H0 H1 4). pose proof (pow_mono h H0 H1 3). lra.
 Qed.
 Print Assumptions C08_angular_velocities_partial.
 
+(* the vectorised method 'integration' (known finding: not a rotation integral, see C08_integration_refuted.v), PARTIAL:
+   one sample g at Dt = 0.05 yields the roll-pitch-yaw quaternion of the angles g*Dt, which is the rotation by g0*Dt about
+   x when the rate stays on the x axis *)
+Theorem C08_integration_single_axis_partial : forall g0 g1 g2,
+  C08_integration_R g0 g1 g2 = Val (rpyq (g0/20) (g1/20) (g2/20)) /\
+  C08_integration_R g0 0 0 = Val [cos (g0/20/2); sin (g0/20/2); 0; 0].
+Proof. intros. split; [apply integration_val|apply integration_single_axis]. Qed.
+Print Assumptions C08_integration_single_axis_partial.
+
 (* non-vacuity: the guards are inhabited by a non-trivial point of the property's range and the objects are not degenerate *)
 Example C08_nonvacuous :
-  (3/5)*(3/5) + 0*0 + (4/5)*(4/5) + 0*0 = 1 /\ 3*3 + (-4)*(-4) + 12*12 <> 0 /\ uu (1/100) 3 (-4) 12 <= 1 /  unitq [3/5; 0; 4/5; 0] /\ e (dr_step (1/100) 3 (-4) 12 [3/5; 0; 4/5; 0]) 1 = 57/1000 /  m4v (expsum (hS 1 2 0 0) 2) [1;0;0;0] = [1/2; 1; 0; 0].
+  (3/5)*(3/5) + 0*0 + (4/5)*(4/5) + 0*0 = 1 /\ 3*3 + (-4)*(-4) + 12*12 <> 0 /\ uu (1/100) 3 (-4) 12 <= 1 /\
+  unitq [3/5; 0; 4/5; 0] /\ e (dr_step (1/100) 3 (-4) 12 [3/5; 0; 4/5; 0]) 1 = 57/1000 /\
+  m4v (expsum (hS 1 2 0 0) 2) [1;0;0;0] = [1/2; 1; 0; 0].
 Proof.
   split; [lra|]. split; [lra|]. split; [unfold uu; lra|]. split; [split; [reflexivity|unfold_rot; lra]|].
   split; [unfold dr_step; unfold_q; lra|].
